@@ -398,7 +398,7 @@ func execC19Selector(t *trace.Trace) *harness.RunResult {
 func init() {
 	harness.Register(&harness.Prop{
 		ID: "C19", Engine: "E1", Level: "exploration", Gen: genC19, Exec: execC19,
-		Runs:      map[string]int{"quick": 30000, "thorough": 500000},
+		Runs:      map[string]int{"quick": 100000, "thorough": 3000000},
 		Rule:      "two kinds of seeded runs. Content: a C02 attribute history is executed under a seeded rebalancing configuration (off / lazy / incremental / lazy+incremental / smart with any options) with toggles (disable/enable rebalancing, enable/disable lazy, force batch, enable/stop incremental, rebalance all, rebalance one attribute index) inserted at random points, and again under the default configuration without toggles; the logical dumps after restart must be identical (and equal to the model). Selector: seeded sequences of workload observations (operation mixes, rates 0.01/s .. 1e9/s, file sizes around 100 MB/500 MB/1 GB, bursts, idle gaps) and evaluations drive the real WorkloadDetector + ConfigSelector + SmartRebalancer.Evaluate under a simulated Clock, incl. clock faults (backward and far-forward jumps), for all constraint settings; a recording (end-to-end) or scripted strategy installed through WithStrategy gives the raw pre-gate decision; invariants on every returned Decision: mode in allowed-or-none, confidence in [0,1], low raw confidence => none, and no mode change within the stability period among gate-passing decisions (monotone-clock runs only); non-trivial = non-default configuration or a toggle (content), >= 2 distinct raw modes (selector); distinct by configuration class / constraint setting",
 		Technique: "deterministic simulation: configuration differential over simulated histories; selector under a simulated clock with clock faults",
 		Assumptions: []string{"'none' is always a permissible returned mode (the statement's own fallback)",
